@@ -7,6 +7,7 @@ C/C++ files as well as fixed-form Fortran
 
 import itertools as it
 import logging
+import re
 
 from codebasin.language import FileLanguage
 
@@ -563,6 +564,11 @@ def fortran_file_source(fp, relaxed=False):
     current_physical_start = None
     total_sloc = 0
 
+    # Every branch of a conditional continues from the lexical state at the
+    # opening directive (a statement or character literal may be continued
+    # across the conditional, with one continuation per branch).
+    branch_states = []
+
     c_walker = c_file_source(fp, directives_only=True)
     try:
         while True:
@@ -575,6 +581,17 @@ def fortran_file_source(fp, relaxed=False):
                 current_physical_start = curr_line.current_physical_start
 
             if src_c_line.category == "CPP_DIRECTIVE":
+                directive = re.match(
+                    r"\s*#\s*([a-z]*)",
+                    "".join(src_c_line.flushed_line),
+                ).group(1)
+                if directive in ["if", "ifdef", "ifndef"]:
+                    branch_states.append(list(cleaner.state))
+                elif directive in ["elif", "else"] and branch_states:
+                    cleaner.state = list(branch_states[-1])
+                elif directive == "endif" and branch_states:
+                    branch_states.pop()
+
                 curr_line.physical_update(src_c_line.current_physical_end)
                 if curr_line.category != "BLANK":
                     yield curr_line
